@@ -930,6 +930,9 @@ class _FunctionInformationCollector(ast.RopeNodeVisitor):
         self._comp_exp(node)
 
     def _comp_exp(self, node):
+        # the first iterable is evaluated in the enclosing scope: what it reads
+        # must survive the removal of the comprehension's own names below
+        self.visit(node.generators[0].iter)
         read = OrderedSet(self.read)
         written = OrderedSet(self.written)
         maybe_written = OrderedSet(self.maybe_written)
